@@ -217,6 +217,8 @@ func VerifC12Step() {
 		} else {
 			verifrt.Assert(err != nil, "C12/failed-start-is-reported")
 			verifrt.Reach("watch-failed-start")
+			// a failed start leaves nothing behind: no table entry, no half-started informer
+			w.checkInvariant("C12/after-failed-start")
 			// the caller retries: the retry must start an informer that delivers to the handlers
 			err2 := w.c.Watch(ctx, vOwner(owner), vObjOfKind(kind))
 			verifrt.Assert(err2 == nil, "C12/retry-after-failed-start-succeeds")
